@@ -46,7 +46,14 @@ def make_check(kind):
         if s == "exc":
             r.fail(exc_kind(est), site + ".__init__", exc_detail(est))
             return r
-        s, M = call(est.fit_transform, cc.lib_input(kind, case))
+        X = cc.lib_input(kind, case)
+        if case.get("refit"):
+            # history: the estimator object was fitted on another corpus (same tokens, other order / time scale) before
+            r.label("refit")
+            prior = [[(t, 3.0 * ts + 7.0) for t, ts in d] for d in reversed(X)] if kind == "timed" else list(reversed(X))
+            if any(len(d) for d in prior):
+                call(est.fit, prior)
+        s, M = call(est.fit_transform, X)
         e = cc.expectation(kind, case)
         if e.ambiguous:
             r.label("ambiguous-vocabulary")
